@@ -1,4 +1,5 @@
 import Pyx12Verif.Props.C08
+import Pyx12Verif.Props.C08TextExample2
 open Pyx12Verif.Xml
 #print axioms unescape_escapeText
 #print axioms unescape_escapeAttr
@@ -19,3 +20,17 @@ open Pyx12Verif.Xml
 #print axioms exSteps_runs
 #print axioms doc_roundtrip
 #print axioms stepsFit_of_stepsFitB
+#print axioms Pyx12Verif.Convert.session_complete
+#print axioms Pyx12Verif.Convert.convertText_complete
+#print axioms Pyx12Verif.Convert.read_printed
+#print axioms Pyx12Verif.Convert.canonical_printed
+#print axioms Pyx12Verif.Convert.normal_of_canonical
+#print axioms Pyx12Verif.Convert.written_trailers
+#print axioms Pyx12Verif.Convert.written_keeps
+#print axioms Pyx12Verif.Convert.convert_of_rounds
+#print axioms Pyx12Verif.Convert.text_roundtrip_repairs_counts
+#print axioms Pyx12Verif.Convert.written_same
+#print axioms Pyx12Verif.Convert.text_roundtrip_generated
+#print axioms Pyx12Verif.Convert.text_roundtrip_identity
+#print axioms Pyx12Verif.Doc.ExS.good_domain
+#print axioms Pyx12Verif.Doc.ExS.goodNl_identity
